@@ -170,3 +170,50 @@ Proof.
   - change (join sep (x :: y :: l)) with (x ++ sep ++ join sep (y :: l)).
     rewrite IH. cbn [map concat]. rewrite <- app_assoc. reflexivity.
 Qed.
+
+(* ---------------------------------------------------------------- tokens that stay on one line *)
+(* a string with at most one line (it may end in a line break): push_string pushes that line only *)
+Definition tok_single (t : vtok) : bool :=
+  match t with
+  | VStr s => match splitlines s with _ :: _ :: _ => false | _ => true end
+  | VField _ _ => true
+  end.
+Definition first_line (t : vtok) : vtok :=
+  match t with
+  | VStr s => VStr (match splitlines s with l0 :: _ => l0 | [] => [] end)
+  | VField _ _ => t
+  end.
+
+Lemma appends_push_tokens_single c toks st : forallb tok_single toks = true ->
+  appends st (push_tokens c toks st) (val_text (map first_line toks)).
+Proof.
+  intros H. unfold push_tokens.
+  assert (G : forall toks o lg, forallb tok_single toks = true ->
+            let r := fold_left (fun '(o, lg) t =>
+                 match t with
+                 | VStr s => (os_push_string (oc_fmt c) o s, lg)
+                 | VField i nm => (os_push_field o (fs_field st + i)%N nm,
+                                   match lg with Some l => Some (N.max l i) | None => Some i end)
+                 end) toks (o, lg) in
+            os_value (fst r) = os_value o ++ val_text (map first_line toks) /\ os_level (fst r) = os_level o).
+  { clear toks H. induction toks as [|t ts IH]; intros o lg H; cbn zeta.
+    - cbn [fold_left fst val_text map concat]. rewrite app_nil_r. split; reflexivity.
+    - cbn [forallb] in H. apply andb_true_iff in H. destruct H as [Ht Hts].
+      cbn [fold_left]. destruct t as [s|i nm].
+      + assert (P : os_value (os_push_string (oc_fmt c) o s)
+                    = os_value o ++ match splitlines s with l0 :: _ => l0 | [] => [] end
+                    /\ os_level (os_push_string (oc_fmt c) o s) = os_level o).
+        { unfold os_push_string. cbn [tok_single] in Ht. destruct (splitlines s) as [|l0 [|l1 ls]]; try discriminate.
+          - rewrite app_nil_r. split; reflexivity.
+          - cbn [fold_left]. rewrite value_push. split; reflexivity. }
+        destruct P as [V L].
+        destruct (IH (os_push_string (oc_fmt c) o s) lg Hts) as [V2 L2]. cbn zeta in V2, L2.
+        rewrite V2, L2, V, L. unfold val_text. cbn [map concat tok_text first_line]. rewrite app_assoc. split; reflexivity.
+      + destruct (IH (os_push_field o (fs_field st + i)%N nm)
+                     (match lg with Some l => Some (N.max l i) | None => Some i end) Hts) as [V2 L2].
+        cbn zeta in V2, L2. rewrite V2, L2, value_push_field, level_push_field.
+        unfold val_text. cbn [map concat tok_text first_line]. rewrite app_assoc. split; reflexivity. }
+  specialize (G toks (fs_out st) None H). cbn zeta in G.
+  destruct (fold_left _ toks (fs_out st, None)) as [out largest]. cbn [fst] in G.
+  unfold appends, val, lvl. cbn [fs_out]. exact G.
+Qed.
